@@ -112,7 +112,10 @@ CLAIMS.update({
               'there (stable_item_sound). Program level, single run: assemble_compressed_literal_sound - in every successful -c assembly each 2-byte '
               'instruction of the output either stood compressed in the source or comes from a compression decision on a 32-bit instruction, and '
               'if that instruction has label-free immediates the two bytes at its offset decode to a legal compressed instruction that '
-              'executes like it (at the final tables). NOT a theorem: the composition over two whole runs (-c off / on carry different label tables; the '
+              'executes like it (at the final tables); offset_shrinks / assemble_compressed_transfer_sound / compressed_never_refused - the distance '
+              'to every label only shrinks (same side of 0) between a compression decision and the final layout, so a c.j / c.jal / c.beqz / '
+              'c.bnez chosen for a label target still fits, decodes to a legal transfer to the same target and executes like its 32-bit '
+              'origin wherever that origin would be accepted, and is never the cause of a refusal. NOT a theorem: the composition over two whole runs (-c off / on carry different label tables; the '
               'statement compress_same_ops_statement is kept as a def) - that part is explored: every instruction line of every generated '
               'program is assembled both ways by the real assembler and both encodings are executed by the Lean specification from 8 register '
               'files; registers written, stores and the control-transfer target (mapped through both label tables) must agree, data bytes '
@@ -144,7 +147,7 @@ CLAIMS.update({
               'program, where later passes re-evaluate label-dependent immediates after the decision (statement kept as '
               'compress_preserves_success_statement); explored instead: each generated program is assembled both ways by the real assembler; '
               'success without -c and failure with -c is a violation unless the failing line is in the known-finding classes KF-A3 / KF-B '
-              '(a compression rule consulted a label-dependent immediate that later left the compressed operand set).'),
+              '(a compression rule consulted a label-dependent immediate that later left the compressed operand set) or KF-E (alignment to an odd boundary: distances do not keep their parity - found by the proof attempt; C04.compressed_never_refused shows that label-free and label-transfer decisions are otherwise never the cause).'),
         note=TB,
         ref='DESIGN.md §5 C12'),
     'C20': dict(
